@@ -42,6 +42,10 @@ pub enum MEdit {
     ScaleNumber { ptr: String, factor: f64 },
     RenameAllNames,
     RemapAllIds,
+    /// the editor moves the whole building vertically by `dz` (spaces, walls, shades); with
+    /// `walls_to_ground`, windowless vertical exterior walls of spaces that end up below ground
+    /// become ground-contact walls
+    MoveBuildingZ { dz: f64, walls_to_ground: bool },
 }
 
 impl MEdit {
@@ -70,6 +74,7 @@ impl MEdit {
             MEdit::SetKey { .. } => "model.key_added",
             MEdit::RenameAllNames => "variant.names",
             MEdit::RemapAllIds => "variant.ids",
+            MEdit::MoveBuildingZ { .. } => "edit.move_building_z",
         }
     }
     /// pointer with array indices replaced by `*` (stratification / grouping)
@@ -407,6 +412,53 @@ pub fn apply(m: &mut Value, e: &MEdit, serial: u64) -> bool {
                 }
                 _ => false,
             }
+        }
+        MEdit::MoveBuildingZ { dz, walls_to_ground } => {
+            let mut below: std::collections::HashSet<String> = Default::default();
+            let mut any = false;
+            if let Some(a) = m.pointer_mut("/spaces").and_then(|w| w.as_array_mut()) {
+                for sp in a.iter_mut() {
+                    let z = sp.get("z").and_then(|z| z.as_f64()).unwrap_or(0.0) + dz;
+                    let z = (z * 1000.0).round() / 1000.0;
+                    if let Some(o) = sp.as_object_mut() {
+                        o.insert("z".into(), json!(z));
+                        any = true;
+                        if z < 0.0 {
+                            if let Some(id) = o.get("id").and_then(|i| i.as_str()) {
+                                below.insert(id.to_string());
+                            }
+                        }
+                    }
+                }
+            }
+            let with_windows: std::collections::HashSet<String> = m
+                .pointer("/windows")
+                .and_then(|w| w.as_array())
+                .map(|a| a.iter().filter_map(|w| w.get("wall").and_then(|x| x.as_str()).map(|x| x.to_string())).collect())
+                .unwrap_or_default();
+            for coll in ["/walls", "/shades"] {
+                if let Some(a) = m.pointer_mut(coll).and_then(|w| w.as_array_mut()) {
+                    for w in a.iter_mut() {
+                        if let Some(p) = w.pointer_mut("/geometry/position").and_then(|p| p.as_array_mut()) {
+                            if p.len() == 3 {
+                                let z = p[2].as_f64().unwrap_or(0.0) + dz;
+                                p[2] = json!((z * 1000.0).round() / 1000.0);
+                            }
+                        }
+                        if *walls_to_ground && coll == "/walls" {
+                            let tilt = w.pointer("/geometry/tilt").and_then(|t| t.as_f64()).unwrap_or(90.0);
+                            let in_below = w.get("space").and_then(|s| s.as_str()).map(|s| below.contains(s)).unwrap_or(false);
+                            let id = w.get("id").and_then(|s| s.as_str()).unwrap_or("").to_string();
+                            if in_below && (60.0..=120.0).contains(&tilt) && w.get("bounds").and_then(|b| b.as_str()) == Some("EXTERIOR") && !with_windows.contains(&id) {
+                                if let Some(o) = w.as_object_mut() {
+                                    o.insert("bounds".into(), json!("GROUND"));
+                                }
+                            }
+                        }
+                    }
+                }
+            }
+            any
         }
         MEdit::SetValue { ptr, value } => match m.pointer_mut(ptr) {
             Some(v) => {
